@@ -357,7 +357,20 @@ def c08(run: Any) -> list[Finding]:
                 out.append((f"C08 {sc} foreign connection for execution", f"{_short(ev['bridged'])} of {wid} was spawned through the connection {handle}, the worker's own is {own}", {}))
         elif handle is not None and handle != (worker.params["nets_host"] or "process"):
             out.append((f"C08 {sc} foreign container for execution", f"{_short(ev['bridged'])} of {wid} was spawned in {handle}, the worker's own is {worker.params['nets_host']}", {}))
-        # never on a worker whose restrictions exclude the test
+        # never on a worker whose restrictions exclude the test: the worker's own only/no lines per vm,
+        # evaluated here on the variant names of the vms the test uses ("only A, B" / "no A, B": any of / none of)
+        for obj in node.objects:
+            if obj.key != "vms":
+                continue
+            variant = trav.vm_variant(obj)
+            for line in worker.restrs.get(obj.suffix, "").splitlines():
+                words = line.split(None, 1)
+                if len(words) != 2 or words[0] not in ("only", "no"):
+                    continue
+                names = [w.strip() for w in words[1].split(",") if w.strip()]
+                hit = any(("." + nm + ".") in ("." + variant + ".") for nm in names)
+                if (words[0] == "only" and not hit) or (words[0] == "no" and hit):
+                    out.append((f"C08 {sc} excluded variant", f"{wid} executed {ev['shortname']} with {obj.suffix} = {variant} although its restrictions say '{line.strip()}' for {obj.suffix}", {}))
         for flat in [n for n in node.setup_nodes if n.is_flat()]:
             if worker.net.long_suffix in flat.incompatible_workers:
                 out.append((f"C08 {sc} excluded worker", f"{wid} executed {ev['shortname']} although its restrictions exclude it", {}))
